@@ -107,6 +107,29 @@ fn range_inside(text: &str, r: &Range) -> bool {
 }
 
 pub fn gen_position(d: &mut Dice<'_>, text: &str) -> (u32, u32) {
+    // half of the positions aim at a word or string (start, inside, end), preferring those that
+    // stand behind a non-ASCII character on their line (where byte, UTF-16 and scalar columns differ)
+    if d.chance(1, 2) {
+        let lex: Vec<_> = textgen::split(text).into_iter().filter(|x| matches!(x.kind, LexKind::Word | LexKind::Str)).collect();
+        if !lex.is_empty() {
+            let behind: Vec<usize> = (0..lex.len()).filter(|i| {
+                let ls = text[..lex[*i].start].rfind('\n').map_or(0, |p| p + 1);
+                !text[ls..lex[*i].start].is_ascii()
+            }).collect();
+            let k = if !behind.is_empty() && d.chance(1, 2) { behind[d.below(behind.len())] } else { d.below(lex.len()) };
+            let l = &lex[k];
+            let mut off = match d.below(3) {
+                0 => l.start,
+                1 => l.start + d.below(l.end - l.start),
+                _ => l.end,
+            };
+            while !text.is_char_boundary(off) {
+                off -= 1;
+            }
+            let p = to_position(text, off);
+            return (p.line, p.character);
+        }
+    }
     let ls = lines(text);
     let li = d.below(ls.len());
     let (s, e) = ls[li];
@@ -377,6 +400,17 @@ pub fn run_inprocess(ops: &[Op]) -> Result<Outcome, Violation> {
                 }
                 match op {
                     Op::Hover(..) => {
+                        if let Ok(r) = serde_json::from_value::<Range>(val["range"].clone()) {
+                            // the hovered range contains the (clamped) request position: computed with our
+                            // own UTF-16 conversion, independent of the server's
+                            let off = position_to_offset(&text, *l, *c);
+                            let (a, b) = (position_to_offset(&text, r.start.line, r.start.character), position_to_offset(&text, r.end.line, r.end.character));
+                            // (the server answers for the next token when the position lies in white space)
+                            let ws = |x: usize, y: usize| text.get(x..y).is_some_and(|t| t.chars().all(|ch| ch.is_whitespace()));
+                            if !(a <= off && off <= b) && !(off < a && ws(off, a)) && !(b < off && ws(b, off)) {
+                                return Err(Violation { sig: "hover-range-misses-position".into(), what: format!("step {step} {op:?}: the hover range {r:?} (bytes {a}..{b}) does not contain the request position (byte {off})"), replay: hist() });
+                            }
+                        }
                         if let Some(md) = val["contents"]["value"].as_str() {
                             if let Ok(r) = serde_json::from_value::<Range>(val["range"].clone()) {
                                 // sets of the hovered node according to the semantic pass
@@ -404,6 +438,33 @@ pub fn run_inprocess(ops: &[Op]) -> Result<Outcome, Violation> {
                         }
                     }
                     Op::Def(..) => {
+                        // completeness: on a text without any diagnostic, a position inside an identifier of a
+                        // rule body that names a declared rule has a definition (own splitter, own conversion)
+                        if val.is_null() {
+                            let t2 = text.clone();
+                            let clean = lw::catch(move || lw::diagnostics(&t2)).map(|(d, n)| !d.iter().any(|x| x.error) && n == 0).unwrap_or(false);
+                            if clean {
+                                let off = position_to_offset(&text, *l, *c);
+                                let lex: Vec<_> = textgen::split(&text).into_iter().filter(|x| !matches!(x.kind, LexKind::Ws | LexKind::LineComment | LexKind::DocComment | LexKind::BlockComment)).collect();
+                                if let Some(k) = lex.iter().position(|x| x.start <= off && off < x.end && x.kind == LexKind::Word) {
+                                    let name = &text[lex[k].start..lex[k].end];
+                                    let is_kw = ["token", "start", "right", "skip", "part"].contains(&name);
+                                    // declared as a rule: `name :` or `name ^ :` at the top level
+                                    let declared_rule = (0..lex.len()).any(|i| {
+                                        &text[lex[i].start..lex[i].end] == name
+                                            && lex[i].kind == LexKind::Word
+                                            && (lex.get(i + 1).is_some_and(|n| &text[n.start..n.end] == ":") || (lex.get(i + 1).is_some_and(|n| &text[n.start..n.end] == "^") && lex.get(i + 2).is_some_and(|n| &text[n.start..n.end] == ":")))
+                                    });
+                                    // the occurrence itself is a use inside a rule body: some `:` before it and no `;` in between
+                                    let in_body = (0..k).rev().find(|i| matches!(&text[lex[*i].start..lex[*i].end], ":" | ";")).is_some_and(|i| &text[lex[i].start..lex[i].end] == ":");
+                                    let next_is_colon = lex.get(k + 1).is_some_and(|n| matches!(&text[n.start..n.end], ":" | "^"));
+                                    let lower = name.chars().next().is_some_and(|ch| ch.is_ascii_lowercase());
+                                    if !is_kw && declared_rule && in_body && !next_is_colon && lower {
+                                        return Err(Violation { sig: "definition-missing".into(), what: format!("step {step} {op:?}: the position lies inside the reference `{name}` to a declared rule, but go-to-definition answers null"), replay: hist() });
+                                    }
+                                }
+                            }
+                        }
                         if let Ok(Some(loc)) = serde_json::from_value::<Option<Location>>(val.clone()) {
                             if loc.uri == uri(*d) {
                                 // the reference under the cursor names what the definition declares
